@@ -3,7 +3,7 @@
    (default mode) and of props.signal_probability(approx=False), instantiated with the clause templates regenerated from sat.py. *)
 From stdpp Require Import strings gmap sets.
 From Coq Require QArith.
-From CG Require Import Base.Oracle Model.Lint Model.Sat Proofs.SatProofs Proofs.SatCount Proofs.SatSolver Gen.Gen_cnf.
+From CG Require Import Base.Oracle Model.Lint Model.Sat Proofs.SatProofs Proofs.SatCount Proofs.SatCone Proofs.SatSolver Gen.Gen_cnf.
 
 Theorem C08_tables_ok : cnf_tables_ok gen_cnf_tables = true.
 Proof. vm_compute. reflexivity. Qed.
@@ -31,27 +31,27 @@ Theorem C08_dimacs : ∀ C ord A, lint_clean C → no_x (c_g C) → ord_ok (c_g 
 Proof. intros C ord A Hl Hx. exact (dimacs_spec _ C08_tables_ok C ord A (lint_wf C Hl Hx)). Qed.
 Print Assumptions C08_dimacs.
 
-(* signal_probability: the full statement (DESIGN.md appendix C) -- visible, not claimed *)
-Inductive pathl (c : circuit) : string → string → list string → Prop :=
-| pathl_nil u : u ∈ dom c → pathl c u u [u]
-| pathl_step u w v l : u ∈ fanin c w → pathl c w v l → pathl c u v (u :: l).
-Definition reach c u v := ∃ l, pathl c u v l.
-Definition C08_signal_probability_full : Prop := ∀ solver, solver_ok solver →
+(* signal_probability (DESIGN.md appendix C, full): for a lint-clean closed acyclic circuit the returned rational is
+   |{ρ : sp → bool | n = 1 in every consistent valuation of the whole circuit that agrees with ρ}| / 2^|sp|, where sp is the set of
+   startpoints that reach n.  (`reach`, `pathl`: paths along fan-in edges, Proofs/SatCone.v.  The success premise excludes
+   blackbox pins and x constants in the cone: the model raises NotImplementedError / ValueError there, like the code.) *)
+Theorem C08_signal_probability : ∀ solver, solver_ok solver →
   ∀ C n q, lint_clean C → bb_free C → closed (c_g C) → acyclic (c_g C) → n ∈ dom (c_g C) →
   signal_probability solver C n = Ok q →
-  ∃ (sp : gset string) l, (∀ s, s ∈ sp ↔ s ∈ startpoints (c_g C) ∧ reach (c_g C) s n) ∧ NoDup l ∧
+  ∃ (sp : gset string) (l : list (gmap string bool)),
+    (∀ s, s ∈ sp ↔ s ∈ startpoints (c_g C) ∧ reach (c_g C) s n) ∧ NoDup l ∧
     (∀ ρ : gmap string bool, ρ ∈ l ↔ dom ρ = sp ∧ ∀ v, consistent (c_g C) v → agreesA ρ v → v n = true) ∧
     QArith_base.Qeq q (QArith_base.Qmake (Z.of_nat (length l)) (Pos.of_nat (2 ^ size sp))).
-(* proved part: the result is the exact count (in the sense of C08_model_count) of the cone sub-circuit with n asserted, divided by
-   2^|startpoints of the sub-circuit|, whenever the sub-circuit that tx.subcircuit builds is in the encoder's domain.
-   Missing for the full statement: the cone is closed under fan-in (so the sub-circuit of a lint-clean circuit is lint-clean and its
-   startpoints are the startpoints that reach n) and consistent valuations of the cone extend to the whole acyclic circuit. *)
-Theorem C08_signal_probability_partial : ∀ solver, solver_ok solver → ∀ C n S,
+Proof. intros s [Hs Hc] C n q Hl _. exact (signal_probability_full _ C08_tables_ok s Hs Hc C n q Hl). Qed.
+Print Assumptions C08_signal_probability.
+
+(* the result in terms of the cone sub-circuit that tx.subcircuit builds (used by the proof above) *)
+Theorem C08_signal_probability_cone : ∀ solver, solver_ok solver → ∀ C n S,
   subcircuit C (cone (c_g C) n) = Ok S → cnf_wf (c_g S) → n ∈ dom (c_g C) →
   ∃ k, signal_probability solver C n = Ok (QArith_base.Qmake (Z.of_nat k) (Pos.of_nat (2 ^ size (startpoints (c_g S))))) ∧
        ∃ l : list (gmap string bool), NoDup l ∧ length l = k ∧ ∀ ρ, ρ ∈ l ↔ extendable S {[ n := true ]} ρ.
 Proof. intros s [Hs Hc]. exact (signal_probability_partial _ C08_tables_ok s Hs Hc). Qed.
-Print Assumptions C08_signal_probability_partial.
+Print Assumptions C08_signal_probability_cone.
 
 (* ---- non-vacuity ---- *)
 Definition ex_c : Circuit := {|
@@ -72,6 +72,14 @@ Proof.
   split; [apply (bool_decide_unpack _); vm_compute; exact I|]. split.
   - apply (lint_wf ex_S); [apply (bool_decide_unpack _); vm_compute; exact I|]. apply (bool_decide_unpack _). vm_compute. exact I.
   - apply (bool_decide_unpack _). vm_compute. exact I.
+Qed.
+
+(* the premises of C08_signal_probability hold for ex_c and h (with the brute-force solver the probability is 2/4) *)
+Example C08_ex_prob : lint_clean ex_c ∧ bb_free ex_c ∧ closed (c_g ex_c) ∧ acyclic (c_g ex_c) ∧ "h" ∈ dom (c_g ex_c).
+Proof.
+  split; [apply (bool_decide_unpack _); vm_compute; exact I|]. split; [reflexivity|].
+  split; [apply closedb_spec; vm_compute; reflexivity|]. split; [apply acyclicb_sound; vm_compute; reflexivity|].
+  apply (bool_decide_unpack _). vm_compute. exact I.
 Qed.
 
 (* the solver hypotheses are satisfiable: exhaustive search over the variables of the formula is sound and complete *)
